@@ -33,7 +33,7 @@ META = dict(
     "order are enumerated, values and the per-individual rejection mask are symbolic; independent values are proved to be exactly the before/proposed "
     "mixture and all later reads fresh. revert(subset)'s arithmetic is decided bit-exactly in IEEE float32 (tensor and weighted values, broadcast masks). "
     "The real samplers are executed on every accept/reject pattern (see C03) and the resulting state is proved to be the mixture with fresh derived values.",
-    bounds="toy graphs <= 6 nodes (all read subsets), real model graphs (logistic+sources, linear) with the sampler-read sets; 2 individuals; float32 elements: values of rank 1-3",
+    bounds="toy graphs <= 6 nodes (all read subsets), real model graphs (logistic+sources, linear) with the sampler-read sets; optionally one earlier ACCEPTED proposal (accumulate on the first / assignment on the last proposable variable) before the rejected one; a refusal raised by the real State on a feasible path of the protocol is a counterexample; 2 individuals; float32 elements: values of rank 1-3",
     outside="device moves; deep-copy cost of COPY forks; mixture branch of the individual sampler",
     assumptions=["definitions abstracted as functions of declared parents", "partial revert under its documented precondition"],
 )
